@@ -514,6 +514,7 @@ func (vc *VC) execInstr(fr *frame, st *State, ins ssa.Instruction) {
 		if lab, ok := fr.anchors[x]; ok && fr.contract != nil {
 			vc.anchorPost(fr, st, lab)
 			vc.markMust(fr, st, lab)
+			vc.anchorAfter(fr, st, lab, fr.vals[x], x.Type(), x.Pos())
 		}
 	case *ssa.Defer:
 		st.defers = append(st.defers, deferred{x, fr})
